@@ -19,6 +19,7 @@ ALLOWED_AXIOMS = {
     "sig_forall_dec", "sig_not_dec", "functional_extensionality_dep",
     "ClassicalDedekindReals.sig_forall_dec", "ClassicalDedekindReals.sig_not_dec",
     "FunctionalExtensionality.functional_extensionality_dep",
+    "classic", "Classical_Prop.classic",
 }
 TRUSTED = [
     "translator/temporal.py + translator/pyexpr.py (lambdas of series/_temporal.py -> gen/TemporalGen.v)",
@@ -30,6 +31,19 @@ ASSUMPTIONS = [
     "theorems are over Coq's real numbers (no rounding); the float model is used only for the correspondence",
     "keyword shifts soy/eopy/tty are exercised for regular frequencies only (daily keyword shifts belong to C09)",
 ]
+
+MANIFEST = {
+    "technique": "Coq proof over the reals of formulas regenerated from series/_temporal.py; induction over the span on a Series model; bit-exact PrimFloat correspondence",
+    "level_text": "Theorems (props/C13.v): the eight change lambdas, regenerated from the source on every run, equal the documented "
+                  "formulas; the five rate helpers invert/relate them; forward and backward cumulation of diff/diff_log/pct/roc with the "
+                  "original series as initial condition reproduce the series for EVERY negative shift, series length, start, number of "
+                  "variants (induction over the span on the Series model, proved for every carrier with lawful missing values and "
+                  "instantiated on Coq's reals).  The loops and the Series plumbing are hand-modelled and tied to the code by a "
+                  "bit-exact correspondence (IEEE doubles through PrimFloat; numpy log/exp/power recorded as tables).",
+    "level_note": "Trusted: Coq kernel + vm_compute; translator/temporal.py; harness; Reals axioms (sig_forall_dec, sig_not_dec, "
+                  "functional_extensionality_dep, classic). Modelled not verified: numpy ufuncs (recorded), float rounding "
+                  "(theorems are exact over R), keyword shifts of daily series (C09).",
+}
 
 CHANGE = ["diff", "adiff", "diff_log", "adiff_log", "roc", "aroc", "pct", "apct"]
 CHANGE_K = dict(zip(CHANGE, ["KDiff", "KADiff", "KDiffLog", "KADiffLog", "KRoc", "KARoc", "KPct", "KAPct"]))
@@ -187,10 +201,11 @@ def fill_tables(tb: Tables, case: dict):
                 q = data[1:, :] / data[:-1, :]
                 tb.add_pow(q, f); tb.add_pow(nan, f)
         elif case["op"] == "conv":
-            if case["kind"] in ("pct_from_apct", "roc_from_apct"):
-                tb.add_pow(1 + data / 100, 1 / f); tb.add_pow(nan, 1 / f)
-            if case["kind"] == "roc_from_aroc":
-                tb.add_pow(data, f); tb.add_pow(nan, f)
+            if "apct" in case["kind"] or "aroc" in case["kind"]:
+                # over-approximation: whichever exponent / base the current source uses is recorded
+                for e in (f, 1 / f):
+                    for base in (data, 1 + data / 100, nan):
+                        tb.add_pow(base, e)
         elif case["kind"] == "cum_diff_log":
             tb.add_exp(data); tb.add_exp(nan)
 
